@@ -332,6 +332,47 @@ func (e *detExec) Do(line string) string {
 	// 4. ExportNetwork: one file per bus, written concurrently
 	e.files(g, ctx, ref, seen)
 
+	// 5. the exports are functions of the CURRENT model, not of what was exported before: every
+	//    node gets a new name (reversing the name order) and, where the bus allows it, a new id
+	//    (reversing the id order); the edited network must export exactly like the equal network
+	//    built from scratch (loaded from its own save)
+	func() {
+		defer func() {
+			if p := recover(); p != nil {
+				e.add("c15-stale-after-edit:panic", sprintf("%s: %v", ctx, p))
+			}
+		}()
+		nodes := append([]*acmelib.Node{}, g.nodes...)
+		sort.Slice(nodes, func(i, j int) bool {
+			if nodes[i].Name() != nodes[j].Name() {
+				return nodes[i].Name() < nodes[j].Name()
+			}
+			return nodes[i].EntityID() < nodes[j].EntityID()
+		})
+		edits := 0
+		for i, n := range nodes {
+			if n.UpdateName(sprintf("r%03d_%s", len(nodes)-i, n.Name())) == nil {
+				edits++
+			}
+			if n.UpdateID(acmelib.NodeID(900-i)) == nil {
+				edits++
+			}
+		}
+		if edits == 0 {
+			return
+		}
+		ref2 := detExport(g.net)
+		if ref2.err != "" {
+			return
+		}
+		loaded2, err := acmelib.LoadNetwork(bytes.NewReader(ref2.wire), acmelib.SaveEncodingWire)
+		if err != nil {
+			e.add("c15-stale-after-edit:load-error", ctx+": "+err.Error())
+			return
+		}
+		e.compare("c15-stale-after-edit:", sprintf("%s after renaming / renumbering %d nodes: edited network vs the equal network loaded from its save", ctx, len(nodes)), ref2, detExport(loaded2), seen)
+	}()
+
 	if len(seen) > 0 || ref.err != "" {
 		keys := make([]string, 0, len(seen))
 		for k := range seen {
